@@ -32,12 +32,13 @@ def oracle_spec(spec):
 def cases(draw, tier):
     sc = draw(st.sampled_from(SCORERS))
     p = draw(st.integers(1, 2))
+    bulk = None  # the bulk draws (table, data) come last: see strategies/data.py
+    unit = 1.0
     if sc == "table":
         msl = draw(st.integers(1, 2))
         n = draw(st.integers(2 * msl, 8))
-        m = (n + 1) ** 4
-        flat = draw(st.lists(st.integers(-2, 4), min_size=m, max_size=m))
-        sc = {"cls": "TableLocalAnomalyScore", "table": np.asarray(flat).reshape((n + 1,) * 4).tolist()}
+        bulk = "table"
+        sc = {"cls": "TableLocalAnomalyScore", "table": None}
         X = [[0.0] * p for _ in range(n)]
     else:
         ms = 1 if sc == "function" else K.scorer_min_size(sc, p)
@@ -55,10 +56,8 @@ def cases(draw, tier):
                   "offset": draw(st.sampled_from([0, 0, 1, 2])), "ncols": draw(st.sampled_from([1, 1, 2, 3]))}
             X = [[0.0] * p for _ in range(n)]
         else:
-            X, _ = draw(D.structured_matrix(n, p, boundary_positions=(1, msl, n - msl, n - 2), max_shifts=1))
+            bulk = "matrix"
             unit = draw(st.sampled_from([1.0, 1.0, 1.0, 1e-3, 1e-6, 1e3]))
-            if unit != 1.0:
-                X = [[v * unit for v in row] for row in X]
     mil = D.weighted(draw, [(6, st.integers(2 * msl, 2 * msl + 14)), (2, st.just(2 * msl)), (1, st.just(1000))])
     long_series = n >= 150
     scale = draw(st.sampled_from([0.5, 0.0, 0.2, 1.0, 2.0, None]))
@@ -68,11 +67,21 @@ def cases(draw, tier):
     if long_series:
         # few, long candidates (the pure-Python candidate enumeration is quadratic in the candidate length)
         mil, growth = 1000, draw(st.sampled_from([2.0, 1.5]))
-    return {"params": {"anomaly_score": sc, "threshold_scale": scale, "level": draw(K.level_strategy),
+    case = {"params": {"anomaly_score": sc, "threshold_scale": scale, "level": draw(K.level_strategy),
                        "min_segment_length": msl, "max_interval_length": mil,
                        "growth_factor": growth},
-            "X": X, "scale2": draw(st.floats(1.0, 3.0)),
+            "X": None, "scale2": draw(st.floats(1.0, 3.0)),
             "n_train": None if long_series else draw(st.sampled_from([None, None, "shorter", "longer", "same_buffer"]))}
+    if bulk == "table":
+        m = (n + 1) ** 4
+        flat = draw(st.lists(st.integers(-2, 4), min_size=m, max_size=m))
+        sc["table"] = np.asarray(flat).reshape((n + 1,) * 4).tolist()
+    elif bulk == "matrix":
+        X, _ = draw(D.structured_matrix(n, p, boundary_positions=(1, msl, n - msl, n - 2), max_shifts=1))
+        if unit != 1.0:
+            X = [[v * unit for v in row] for row in X]
+    case["X"] = X
+    return case
 
 
 def inner_intervals(s, e, msl):
